@@ -142,13 +142,16 @@ TEXT = {
         "technique": "Lean 4 proof (trace monitor proved sound for all scripts by induction over the script; local theorems about SendHave / Unchoke / Init) + the same monitor on implementation traces + differential correspondence",
     },
     "C10": {
-        "level": "Kernel-checked for every piece length and every positive block size: PieceRx::left yields blocks (kB, min(B, len-kB)) for k < ceil(len/B), each "
-                 "non-empty and <= B, contiguous from 0, lengths summing to len (T1_blocks_tile_the_piece; B = 16384 by decide), and new_piece_request writes exactly "
-                 "the first two tiles. PARTIAL: the trace statement T2-T4 (requests in tiling order naming the assigned piece, one further request per accepted "
-                 "block, completion exactly at the last outstanding block) is the executable monitor P10 (C10_trace_full); it is evaluated on the model's and on "
-                 "the implementation's trace of every generated script, but its proof for all scripts is not finished.",
-        "note": KERNEL + "partial: C10_trace_full is stated, not proved; the tie (real task over the in-memory stream) checks it on every run.",
-        "technique": "Lean 4 proof (arithmetic tiling theorem by induction) + trace monitor evaluated on model and implementation + differential correspondence",
+        "level": "Kernel-checked for EVERY script of one connection task from a fresh connection (C10_trace, monitor P10 proved sound by induction over the "
+                 "script, with the invariant that a piece is in progress only after the handshake): all Request frames written between an assignment and "
+                 "the completion or cancellation of the piece name that piece and are, in order, the tiles (k*16384, min(16384, len-k*16384)), each exactly "
+                 "once; two are pipelined at the assignment; every accepted block is followed by exactly one further request while tiles remain; the piece "
+                 "is stored and reported exactly at the accepted block that leaves nothing outstanding and nothing unrequested; blocks that do not answer "
+                 "an outstanding request cause nothing. Plus T1 for every piece length and block size: the tiles are non-empty, at most B long, contiguous "
+                 "from 0 and their lengths sum to the piece length. The same monitor runs on the implementation's trace of every generated script.",
+        "note": KERNEL + "the piece length handed to the task is Metainfo::piece_length(i) (C03/C17); a peer that answers with a shorter block than requested is "
+                "outside (the block is then not 'accepted': it matches no outstanding (begin, length) pair).",
+        "technique": "Lean 4 proof (arithmetic tiling theorem; trace monitor proved sound for all scripts by induction, relation between the monitor's record and PieceRx) + the same monitor on implementation traces + differential correspondence",
     },
     "C09": {
         "level": "Kernel-checked for all (index, begin, length) in N^3 (so in particular all of u32^3, with begin+length computed without wrap-around) and all "
